@@ -98,8 +98,9 @@ CLAIMED = {
         design_ref='DESIGN.md 5/C20, 12'),
     'C06': dict(
         category='proof',
-        text=("The entry expressions of the quaternion key matrix F and rotation U are translated from the current source on every run; the glue (Kabsch sequence, guards, dispatch) is pinned as "
-              "text (Pins/D.lean) and followed by Model/Superpose.lean; svd/eigh are contract parameters. Theorems (Props/C06.lean, 18, over any linearly ordered field unless marked R): under the SVD "
+        text=("The entry expressions of the quaternion key matrix F and rotation U are translated from the current source on every run; the whole of get_rotation_matrix_Kabsh (guards, covariance, svd, determinant correction, product) is "
+              "translated as a typed matrix program (Gen/Kernels.lean, svd a parameter) and PROVED equal to the hand model Model/Superpose.lean that the theorems are about (Props/C06K.lean: genk_get_rotation_matrix_Kabsh_eq_model, "
+              "genk_kabsch_core_eq_model, genk_kabsch_proper, genk_kabsch_optimal), so the theorems hold of the source as it is now; the quaternion glue is pinned as text (Pins/D.lean); svd/eigh are contract parameters. Theorems (Props/C06.lean, 18, over any linearly ordered field unless marked R): under the SVD "
               "contract the Kabsch result is a proper rotation and maximises tr(R.A) over SO(3) with no rank assumption - planar, linear, single-point, identical and mirror-image sets included "
               "(kabsch_proper, kabsch_optimal); the residual identity and RMSD minimality over a point list (residual_expand, rmsd_minimal, rmsd_minimal_sqrt); a unit quaternion gives a proper rotation "
               "and tr(U.R) = q^T F q (quat_proper, quat_objective - any sign error in the 25 translated entries breaks it); under the eigenpair contract the quaternion result is optimal among unit "
@@ -112,8 +113,8 @@ CLAIMED = {
         design_ref='DESIGN.md 5/C06, 12'),
     'C10': dict(
         category='proof',
-        text=("Rodrigues, the three Euler matrices and their product are translated entry by entry from the current source on every run; rotate/translation/selection glue is pinned and followed by "
-              "Model/Transform.lean. Theorems (Props/C10.lean): the Rodrigues matrix is a proper rotation fixing its axis and turning every perpendicular vector right-handedly by the angle "
+        text=("Rodrigues, the three Euler matrices and their product are translated entry by entry from the current source on every run; rotate, rot_xyz_around_axis, rotation_euler, translation, rot_axis, rot_euler, rot_mat are "
+              "translated as typed matrix programs (Gen/Kernels.lean) and proved equal to Model/Transform.lean (Props/C10K.lean, 12 genk_*_eq_model theorems). Theorems (Props/C10.lean): the Rodrigues matrix is a proper rotation fixing its axis and turning every perpendicular vector right-handedly by the angle "
               "(rodrigues_so3, rodrigues_fixes_axis, rodrigues_right_handed, *_real with Real.cos/sin); the Euler matrix is Rz.Ry.Rx of axis rotations (euler_is_zyx, euler_so3); rotation about a centre is an "
               "orientation-preserving isometry, inverse restores, the centroid is fixed so the default-centre inverse restores too, translations invert, finite compositions are rigid (rotate_isometry, "
               "rotate_preserves_orientation, rotate_inverse, centroid_fixed, rotate_inverse_default, translate_inverse, composition_rigid); random axes are unit, angles in [0,2pi) (random_axis_unit, "
@@ -125,7 +126,8 @@ CLAIMED = {
         design_ref='DESIGN.md 5/C10, 12'),
     'C18': dict(
         category='proof',
-        text=("The per-axis rotation steps of _align_along_axis, get_rotation_angle and pca are pinned from the current source (Gen.align_steps etc.) and followed by Model/Align.lean. Theorems (Props/C18.lean): "
+        text=("_align_along_axis and get_rotation_angle are translated from the current source (Gen/Kernels.lean; trig and pi as parameters) and proved equal to Model/Align.lean (Props/C18K.lean: "
+              "genk__align_along_axis_eq_model, _real, genk_get_rotation_angle_eq_model); pca is pinned as text. Theorems (Props/C18.lean): "
               "for x, y and z the composed rotation read from the source's steps maps a vector with spherical angles (phi, theta) onto its length times the requested axis (align_maps_vector, align_maps_vector_axis, "
               "align_maps_vector_real with Real.cos/sin and pi identities; the spherical contract is derived from Complex.arg / Real.arccos: spherical_contract_holds); the covariance is equivariant and the extreme "
               "eigenvector with a strict gap ends up parallel to the axis / normal to the plane (cov_equivariant, principal_axis_aligned, principal_axis_aligned_min); the whole structure undergoes one rigid rotation "
@@ -149,7 +151,7 @@ CLAIMED = {
     'C13': dict(
         category='proof',
         text=("Model/SuperposeDb.lean follows superpose(): selections, identity comparison, positional pairing or the text-level intersection (export, re-parse, join), superpose_selection applied to all mobile rows, "
-              "write-back, optional export; the kernel's rotation is a parameter. Theorems (Props/C13.lean): every new mobile coordinate is R.old + t for one (R,t) (one_rigid_motion); row count, order, all non-coordinate "
+              "write-back, optional export; superpose_selection and get_trans_vect are translated (Gen/Kernels.lean) and proved equal to the model (Props/C13K.lean); the kernel's rotation is a parameter. Theorems (Props/C13.lean): every new mobile coordinate is R.old + t for one (R,t) (one_rigid_motion); row count, order, all non-coordinate "
               "attributes of the mobile and the whole target are unchanged (only_mobile_xyz_changes); the pairs handed to the kernel are exactly the selected atoms the two structures share, matched by identity, on both "
               "routes (matched_pairs_are_shared_atoms, matched_pairs_are_shared_atoms_text); with an optimal kernel the RMSD over them is minimal over all rigid motions (optimal_on_matched, optimal_on_shared - the kernel "
               "hypothesis is what C06 proves); a rigidly displaced copy lands back (displaced_copy_lands_back, rank >= 2); no file unless export (no_file_unless_export); name + only_backbone rejected. Correspondence: "
@@ -237,7 +239,7 @@ CLAIMED = {
     'C07': dict(
         category='proof',
         text=("Model/Rmsd*.lean follow the four RMSD routines' data flow (raw-column readers on List Char, zones, check_residues, in-zone/not-in-zone split, identity-keyed intersections, key-ordered coordinates, first-match "
-              "lookup, long/short chain rule) and return the outcome class and the ordered pair lists handed to the kernel; the value is the radicand through Model/Superpose. Theorems (Props/C07.lean), under decidable "
+              "lookup, long/short chain rule) and return the outcome class and the ordered pair lists handed to the kernel; the value is the radicand through Model/Superpose; get_rmsd's radicand is translated and proved equal to the model's (Props/C07K.lean). Theorems (Props/C07.lean), under decidable "
               "Consistent / RawAgrees hypotheses checked on every case: each routine hands the kernel a permutation of the definition's pairs - common backbone atoms of reference interface residues (i-RMSD), of the longer / "
               "shorter chain of the reference (L-RMSD) - or raises exactly when the definition's list is empty or enforcement demands it (irmsd_pairs_fast/_sql, lrmsd_pairs_fast/_sql); the msd depends only on the multiset of "
               "pairs (rmsd_perm_invariant); every reordering of either file gives the same multiset or an explicit error (paired_by_identity_not_position); missing atoms are left out / reported when enforced; the reported "
